@@ -85,6 +85,7 @@ func main() {
 
 	for h := 0; h < nHist; h++ {
 		g := gen.New(e.BatchSeed()*104729 + int64(h))
+		g.Lookalikes = h%2 == 1
 		g.LongStrings = true
 		locs := map[string]*core.Location{}
 		for _, k := range drv.Kinds {
